@@ -5,6 +5,7 @@ package main
 import (
 	"bytes"
 	"context"
+	"crypto/md5"
 	"fmt"
 	"os"
 	"os/exec"
@@ -393,6 +394,13 @@ func dischargeAll(obls []*Obligation, timeout time.Duration, workers int, solver
 		if o.Result == "" {
 			// term construction is not thread-safe: build the query text here, solve in the workers
 			o.query = buildQuery(o, nil)
+			if f := os.Getenv("VERIF_QUERY_LOG"); f != "" {
+				// determinism audit: one line per query (name, digest of its text)
+				if fh, err := os.OpenFile(f, os.O_APPEND|os.O_CREATE|os.O_WRONLY, 0o644); err == nil {
+					fmt.Fprintf(fh, "%s %x\n", o.Name, md5.Sum([]byte(o.query)))
+					fh.Close()
+				}
+			}
 			ch <- o
 		}
 	}
@@ -456,6 +464,7 @@ func unfoldRec(ts []*Term) []*Term {
 	seen := map[*Term]bool{}
 	var reps, tsers []*Term
 	drops := map[*Term][]*Term{}
+	var dropKeys []*Term // in order of first occurrence: the query text must not depend on map iteration order
 	var walk func(t *Term)
 	walk = func(t *Term) {
 		if seen[t] {
@@ -469,6 +478,9 @@ func unfoldRec(ts []*Term) []*Term {
 			tsers = append(tsers, t)
 		}
 		if t.Op == "app" && t.Name == "drop" && !hasBound(t) {
+			if _, ok := drops[t.Args[0]]; !ok {
+				dropKeys = append(dropKeys, t.Args[0])
+			}
 			drops[t.Args[0]] = append(drops[t.Args[0]], t)
 		}
 		for _, a := range t.Args {
@@ -503,7 +515,8 @@ func unfoldRec(ts []*Term) []*Term {
 	}
 	// drop composes: for two suffixes of the same sequence, the later one is a suffix of the earlier one
 	// (instances of T0's drop_drop axiom, supplied here because E-matching cannot see through the index arithmetic)
-	for _, ds := range drops {
+	for _, dk := range dropKeys {
+		ds := drops[dk]
 		if len(ds) < 2 || len(ds) > 8 {
 			continue
 		}
@@ -519,6 +532,7 @@ func unfoldRec(ts []*Term) []*Term {
 	}
 	// tser(T, L, V, ord, lo, hi): serialisation of the map entries ord[lo..hi) as tag/length/value triplets
 	tvals := map[*Term]bool{}
+	var tvalKeys []*Term
 	for _, r := range tsers {
 		bound := false
 		for _, a := range r.Args {
@@ -534,6 +548,9 @@ func unfoldRec(ts []*Term) []*Term {
 		trip := func(i *Term) *Term {
 			k := Select(ord, i)
 			tv := App("tval", SBytes, V, L, k)
+			if !tvals[tv] {
+				tvalKeys = append(tvalKeys, tv)
+			}
 			tvals[tv] = true
 			return CatN(BE(16, Select(T, k)), BE(16, Select(L, k)), tv)
 		}
@@ -553,7 +570,7 @@ func unfoldRec(ts []*Term) []*Term {
 		// every triplet has at least four octets (by induction on hi-lo; part of the definition's theory)
 		out = append(out, Ge(App("len", SInt, rr), Mul(IntLit(4), Max(Sub(hi, lo), IntLit(0)))))
 	}
-	for tv := range tvals {
+	for _, tv := range tvalKeys {
 		V, L, k := tv.Args[0], tv.Args[1], tv.Args[2]
 		l := Select(L, k)
 		vk := Select(V, k)
